@@ -415,6 +415,10 @@ func (c *FnCtx) finishExits(fi *FuncInfo, ct *Contract, sig *types.Signature, cf
 		c.assume(exit, g.T)
 	}
 	for _, en := range ct.Ensures {
+		if en.GhostDef {
+			c.Trusted["ghost definition at "+shortKey(fi.Key)+": "+en.Src] = true
+			continue
+		}
 		g := c.eval(postEnv, en.Expr)
 		if o := c.oblige(exit, "post", en.Label, g.T, en.Src, en.Try, fi.Decl); o != nil {
 			c.applyUsing(o, en)
